@@ -115,13 +115,13 @@ func C14(c *Ctx) {
 		fs := FactsAtInstr(e.in)
 		pos := posf(c, e.in)
 		var missing []string
-		if !HasFact(fs, isPresent) {
+		if !HoldsGiven(fs, isPresent) {
 			missing = append(missing, "session state present")
 		}
-		if !HasFact(fs, isMatch) {
+		if !HoldsGiven(fs, isMatch) {
 			missing = append(missing, "submitted state == session state")
 		}
-		if e.isLogin && !HasFact(fs, noProvErr) {
+		if e.isLogin && !HoldsGiven(fs, noProvErr) {
 			missing = append(missing, "no provider error")
 		}
 		if len(missing) == 0 {
@@ -208,10 +208,11 @@ func C14(c *Ctx) {
 			okPID := mk != nil && Callee(mk) == "ab.MakeOAuth2PID" && Arg(mk, 0) == prov
 			if okPID {
 				uc, _ := CallOf(Arg(mk, 1))
-				okPID = uc != nil && uc.Common().IsInvoke() && uc.Common().Method.Name() == "GetOAuth2UID" && uc.Common().Value == usr
+				okPID = uc != nil && uc.Common().IsInvoke() && uc.Common().Method.Name() == "GetOAuth2UID" && Resolve(uc.(ssa.Instruction), uc.Common().Value) == usr
 			}
 			r.Check(okPID, "C14.chain", en, "PutSession(uid)=MakeOAuth2PID(provider, user.GetOAuth2UID())", posf(c, op.Call), "session names the (provider, uid) pair the provider reported", "session identity is not MakeOAuth2PID(provider, uid of the user built from the provider's details)")
-			r.Check(ErrResult(sav) != nil && ErrNilAt(op.Call.(ssa.Instruction), ErrResult(sav)), "C14.chain", en, "SaveOAuth2==nil≺PutSession(uid)", posf(c, op.Call), "logged in only after the user was saved", "session written although SaveOAuth2 may have failed")
+			saveErr := ErrResult(sav)
+			r.Check(saveErr != nil && HoldsAt(op.Call.(ssa.Instruction), func(f Fact) bool { return f.SaysNil(saveErr) }), "C14.chain", en, "SaveOAuth2==nil≺PutSession(uid)", posf(c, op.Call), "logged in only after the user was saved", "session written although SaveOAuth2 may have failed")
 		}
 	}
 
